@@ -263,85 +263,81 @@ def run(ctx):
         ctx.missing("R3.totals-sum-all", "allocator::allocation_totals")
     else:
         ctx.fn(at)
+        from ..analysis import element_ops
         for fld in ("bytes", "count"):
-            calls = [bb for bb, t in at.calls() if callee_key(t["callee"]).endswith("PerThreadCounters::" + fld)]
-            nexts = [bb for bb, t in at.calls() if t["callee"].get("method") == "next"]
-            ok = bool(calls) and all(at.in_loop(bb) for bb in calls) and bool(nexts) and \
-                all(any(nb in at.successors_reach(bb) and bb in at.successors_reach(nb) for nb in nexts) for bb in calls)
-            # the iterator is over the registry (slice iter of the guard's Vec)
-            it = [t for bb, t in at.calls() if t["callee"].get("method") in ("iter", "into_iter")]
+            eo = element_ops(prog, at, lambda t, _f=fld: callee_key(t["callee"]).endswith("PerThreadCounters::" + _f))
+            ok = bool(eo) and all(e["ok"] for e in eo)
             okit = False
-            for t in it:
-                sl = Slice(at).run(t["args"][0])
-                if any(k.endswith("Mutex::lock") for k, _, _ in sl["calls"]):
-                    okit = True
+            for e in eo:
+                if e["src"] is not None:
+                    sl = Slice(e["in"]).run(e["src"])
+                    if any(k.endswith("Mutex::lock") for k, _, _ in sl["calls"]):
+                        okit = True
             ctx.ob("R3.totals-sum-all", fld, ok and okit, at.loc(),
-                   f"{fld}() read in the loop driven by Iterator::next: {ok}; iterator built from the locked registry: {okit}")
+                   f"{fld}() applied to every registered counter ({[e['form'] + ': ' + e['detail'] for e in eo][:2]}): {ok}; iterator built from the locked registry: {okit}")
 
-    # R4
+    # R4 - evaluated on the Drop body with its private delta helper inlined, so it does not matter whether the subtraction
+    # lives in `*_deltas` or directly in drop()
     for span, delta_fn, src in (("thread_span::ThreadSpan", "thread_span::thread_deltas", "get_or_init_thread_counters"),
                                 ("process_span::ProcessSpan", "process_span::process_deltas", "allocation_totals")):
-        df = prog.one(delta_fn)
-        if df is None:
-            ctx.missing("R4.delta", delta_fn)
-            continue
-        ctx.fn(df)
-        subs = [(bb, t) for bb, t in df.calls() if t["callee"].get("method") in ("checked_sub", "wrapping_sub", "saturating_sub", "sub")]
-        okc = len(subs) == 2
-        det = []
-        for bb, t in subs:
-            a = Slice(df).run(t["args"][0])
-            s = Slice(df, through_calls=False).run(t["args"][1])
-            lhs_ok = any(k.endswith(src) for k, _, _ in a["calls"]) and not a["args"]
-            rhs_ok = bool(s["args"]) and not s["calls"]
-            okc = okc and lhs_ok and rhs_ok
-            det.append(f"{t['callee']['method']}: minuend from {sorted({k.split('::')[-1] for k,_,_ in a['calls']})}, subtrahend = parameter {sorted(s['args'])}")
-        # distinct parameters for the two subtractions
-        ps = [tuple(sorted(Slice(df, through_calls=False).run(t["args"][1])["args"])) for _, t in subs]
-        okc = okc and len(set(ps)) == 2
-        ctx.ob("R4.delta", delta_fn.split("::")[-1], okc, df.loc(), "; ".join(det))
-        # caller passes self.start_bytes/self.start_count, set at creation from the same source
         drops = [b for b in prog.bodies if b.impl_trait and b.impl_trait.endswith("ops::Drop") and b.impl_adt and b.impl_adt.endswith(span)]
         news = prog.find(span + "::new")
         if not drops or not news:
             ctx.missing("R4.sink", f"{span} Drop/new")
             continue
-        d = drops[0]
-        ctx.fn(d)
-        calls = [(bb, t) for bb, t in d.calls() if df.key in callee_paths(t["callee"])]
-        oka = len(calls) == 1
-        det = ""
-        if oka:
-            t = calls[0][1]
-            fa = [op_access_path(d, a)[1] for a in t["args"]]
-            oka = [f[-1].split("::")[-1] if f else None for f in fa] == ["start_bytes", "start_count"]
-            det = f"delta function called with fields {[f[-1] if f else None for f in fa]}"
-        ctx.ob("R4.delta", span.split("::")[-1] + ".drop-args", oka, d.loc(), det)
+        d0 = drops[0]
+        ctx.fn(d0)
+        d = prog.inlined_body(d0, pred=lambda cb: cb.file == d0.file and cb.impl_adt is None)
         sink = [(bb, t) for bb, t in d.calls() if callee_key(t["callee"]).endswith("OperationMetrics::add_span")]
-        pc = path_count(d, [bb for bb, _ in sink])
-        oks = pc in ((0, 1),) and len(sink) == 1
-        # args 2,3 of add_span derive from the delta call's result
-        if oks:
+        subs = [(bb, t) for bb, t in d.calls() if t["callee"].get("method") in ("checked_sub", "wrapping_sub", "saturating_sub", "sub")]
+        okc = len(subs) == 2
+        det = []
+        rhs_fields = []
+        for bb, t in subs:
+            a = Slice(d).run(t["args"][0])
+            sb = Slice(d, through_calls=False).run(t["args"][1])
+            lhs_ok = any(k.endswith(src) for k, _, _ in a["calls"]) and not any(f.endswith(("start_bytes", "start_count")) for f in a["fields"])
+            fl = sorted(f.split("::")[-1] for f in sb["fields"] if f.endswith(("start_bytes", "start_count")))
+            rhs_ok = len(fl) == 1 and not sb["calls"]
+            rhs_fields += fl
+            okc = okc and lhs_ok and rhs_ok
+            det.append(f"{t['callee']['method']}: minuend from {sorted({k.split('::')[-1] for k, _, _ in a['calls']})}, subtrahend = self.{fl}")
+        okc = okc and sorted(rhs_fields) == ["start_bytes", "start_count"]
+        ctx.ob("R4.delta", delta_fn.split("::")[-1], okc, d0.loc(), "; ".join(det) or f"{len(subs)} subtractions")
+        # bytes delta and count delta reach add_span in that order
+        oka = len(sink) == 1 and okc
+        if oka:
             t = sink[0][1]
+            order = []
             for a in t["args"][2:4]:
                 sl = Slice(d).run(a)
-                oks = oks and any(k == df.key for k, _, _ in sl["calls"])
+                hit = [sorted(f.split("::")[-1] for f in Slice(d, through_calls=False).run(ct["args"][1])["fields"] if f.endswith(("start_bytes", "start_count")))
+                       for _k, _b, ct in sl["calls"] if ct["callee"].get("method") in ("checked_sub", "wrapping_sub", "saturating_sub", "sub")]
+                order.append(hit[0][0] if len(hit) == 1 and len(hit[0]) == 1 else None)
+            oka = order == ["start_bytes", "start_count"]
+            det2 = f"add_span(.., bytes, count) receives the deltas against {order}"
+        else:
+            det2 = f"add_span sites {len(sink)}"
+        ctx.ob("R4.delta", span.split("::")[-1] + ".drop-args", oka, d0.loc(), det2)
+        pc = path_count(d, [bb for bb, _ in sink])
+        oks = pc in ((0, 1),) and len(sink) == 1
+        if oks:
             # the only skip path is `thread::panicking() == true`
             from ..analysis import skips_only_via, err_outcomes_diverge
 
-            def pred(u, v, src, lab):
-                return src.get("kind") == "call" and callee_key(src["term"]["callee"]).endswith("thread::panicking") and lab != 0
+            def pred(u, v, src_, lab):
+                return src_.get("kind") == "call" and callee_key(src_["term"]["callee"]).endswith("thread::panicking") and lab != 0
             only, edges = skips_only_via(d, [bb for bb, _ in sink], pred)
             oks = oks and only and bool(edges)
             # the metrics lock is taken unconditionally (blocking) and a poisoned lock is not tolerated silently
             locks = [(bb, t2) for bb, t2 in d.calls() if t2["callee"].get("method") in ("lock", "try_lock") and
-                     callee_key(t2["callee"]).rsplit("::", 1)[0].endswith("Mutex")]
+                     callee_key(t2["callee"]).rsplit("::", 1)[0].endswith("Mutex") and "OperationMetrics" in str(d.local_ty(t2["dest"]["l"])["s"])]
             lock_ok = len(locks) == 1 and locks[0][1]["callee"].get("method") == "lock" and err_outcomes_diverge(d, locks[0][0])[0]
             oks = oks and lock_ok
             det_sink = f"; only skip is thread::panicking(): {only}; metrics lock is a blocking lock whose error diverges: {lock_ok}"
         else:
             det_sink = ""
-        ctx.ob("R4.sink", span.split("::")[-1], oks, d.loc(), f"add_span calls per path {pc}; deltas flow from {delta_fn.split('::')[-1]}" + det_sink)
+        ctx.ob("R4.sink", span.split("::")[-1], oks, d0.loc(), f"add_span calls per path {pc}" + det_sink)
         n = news[0]
         ctx.fn(n)
         # start snapshot taken from the same source
